@@ -81,6 +81,46 @@ LoopOver(r) == r.done \/ ~CanContinue(r.m)
 Seen(e) ==
   [ text |-> OS!CurrentText(e.m.out), tags |-> TagsOf(e.m.out), can |-> CanContinue(e.m),
     choices |-> IF CanContinue(e.m) THEN <<>>     \* (choices are only offered when the flow has stopped)
-                ELSE [i \in 1..Len(e.m.ch) |-> e.m.ch[i].text] ]
+                ELSE LET vis == S!Visible(e.m) IN [i \in 1..Len(vis) |-> vis[i].text] ]
+
+(***************************************************************************)
+(* The state as the save document shows it (runtime/src/story_state.rs     *)
+(* write_json, callstack.rs, flow.rs): the part of a real save that has a  *)
+(* counterpart in the machine - compared after every cont.                 *)
+(*   turn     turnIdx                                                      *)
+(*   vars     variablesState: the globals that differ from their declared  *)
+(*            initial value                                                *)
+(*   counts   visitCounts of knots, stitches, tunnels and functions        *)
+(*   threads  callstack.threads, oldest first; per thread its elements,    *)
+(*            bottom first: type (0 flow / tunnel, 1 function), temporary  *)
+(*            variables, the knot the element's pointer is in ("" for a    *)
+(*            finished flow)                                               *)
+(*   stream   outputStream: text, newline, glue and tag items              *)
+(*   choices  currentChoices: text and tags                                *)
+(***************************************************************************)
+Default(v) == Prog.globals[S!VarMap[v]].v
+ElemView(a) ==
+  [ type |-> IF a.kind = "fn" THEN 1 ELSE 0,
+    temps |-> [x \in (DOMAIN a.temps) \ {"$ret"} |-> a.temps[x]],
+    knot |-> IF a.fr = <<>> THEN "" ELSE LET ch == Prog.ochain[Head(a.fr).b] IN IF ch = <<>> THEN "" ELSE ch[1] ]
+ThreadView(t) == [i \in 1..Len(t) |-> ElemView(t[Len(t) + 1 - i])]
+\* adjacent text items are one piece of text as far as the comparison goes; tags are compared cleaned
+RECURSIVE Merged(_)
+Merged(out) ==
+  IF Len(out) < 2 THEN out
+  ELSE IF out[1].k = "t" /\ out[2].k = "t" THEN Merged(<<[k |-> "t", v |-> out[1].v \o out[2].v]>> \o SubSeq(out, 3, Len(out)))
+  ELSE <<out[1]>> \o Merged(Tail(out))
+\* (whitespace at the edges of a piece of text is not observable: pieces are compared cleaned, empty ones dropped)
+StreamView(out) ==
+  LET mm == Merged(out)
+      cl == [i \in 1..Len(mm) |-> IF mm[i].k \in {"tag", "t"} THEN [k |-> mm[i].k, v |-> OS!CleanWs(mm[i].v)] ELSE mm[i]] IN
+  SelectSeq(cl, LAMBDA it : it.k # "t" \/ it.v # <<>>)
+SaveView(m) ==
+  [ turn |-> m.turn,
+    vars |-> [v \in {v \in DOMAIN m.vars : m.vars[v] # Default(v)} |-> m.vars[v]],
+    counts |-> [k \in (DOMAIN m.cnt) \cap (DOMAIN Prog.knots) |-> m.cnt[k]],
+    threads |-> [i \in 1..Len(m.th) |-> ThreadView(m.th[Len(m.th) + 1 - i])],
+    stream |-> StreamView(m.out),
+    choices |-> [i \in 1..Len(m.ch) |-> [text |-> m.ch[i].text, tags |-> m.ch[i].tags]] ]
 
 =============================================================================
